@@ -511,12 +511,12 @@ func collectErrSites(c *Ctx) []errSite {
 				}
 				fc.code = only.Call.Args[ct.code]
 				if ct.msg >= 0 {
-					fc.msg = paramIdx(fn, only.Call.Args[ct.msg])
+					fc.msg = msgParam(fn, only.Call.Args[ct.msg])
 				}
 			} else {
 				fc.code = fixed[sc].code
 				if fixed[sc].msg >= 0 {
-					fc.msg = paramIdx(fn, only.Call.Args[fixed[sc].msg])
+					fc.msg = msgParam(fn, only.Call.Args[fixed[sc].msg])
 				}
 			}
 			fixed[fn] = fc
@@ -588,6 +588,21 @@ func collectErrSites(c *Ctx) []errSite {
 	}
 	sort.SliceStable(sites, func(i, j int) bool { return sites[i].at.Pos() < sites[j].at.Pos() })
 	return sites
+}
+
+// msgParam: the parameter of fn the message operand is, or is computed from (cause.Error()); -1 if none.
+func msgParam(fn *ssa.Function, v ssa.Value) int {
+	for i, p := range fn.Params {
+		if ssa.Value(p) == ir.Unwrap(v) {
+			return i
+		}
+	}
+	for i, p := range fn.Params {
+		if valueDependsOn(v, p, 0) {
+			return i
+		}
+	}
+	return -1
 }
 
 func derivesFromParams(v ssa.Value, depth int) bool {
